@@ -63,8 +63,8 @@ CLAIMS = {
  'C17': dict(tech="TLA+ spec BSplines.tla (Cox-de Boor in exact rationals) with spline laws checked by TLC; predictions replayed against the helper functions and grid='bspline' signals",
              text="TLC checks partition of unity, non-negativity, linear precision at the Greville points and unit derivative coefficients of the identity spline for orders 0..4, N<=5/8, uniform/geometric/irregular breakpoints, 0..2/4 sub-samples; eval_on_knots (edges, sub-samples, sub-grid), spline values, bspline_derivative and get_greville_points are compared exactly; variable(grid='bspline') under MultipleShooting/DirectCollocation: samples on the control grid and at every refinement equal the Cox-de Boor evaluation of the coefficients, der() is the analytic derivative in physical time, and a grid='bspline' parameter in the ODE reaches the right interval (explicit-Euler gap rows); SplineMethod on integrator chains of length 2..4: every chain member's samples on the control and refined grids equal the derivative splines of the coefficient variables (chain dynamics hold identically), coefficients sit at the Greville times, the path constraint is imposed at every (refined) grid point and boundary constraints once; on three chain problems SplineMethod and MultipleShooting reach the same optimum (solver relation, 1e-5)",
              ref="DESIGN.md section 4 C17"),
- 'C19': dict(tech="TLC model checking of ToFunction.tla (call data = imperative data, isolation from later updates) + scenarios replayed: ocp.to_function vs a freshly written OCP driven imperatively",
-             text="TLC enumerates argument lists (parameters p, q; guesses of sampled states/controls), values current when the function is made, later imperative updates and call values, and supplies the data the call must work on; the real function's results are compared (1e-6) with set_value/set_initial/solve/sample on a fresh OCP with exactly that data, for MS/SS/DC and iteration limits 0 and 50 (with limit 0 the result is the starting point, i.e. depends on the guesses)",
+ 'C19': dict(tech="TLC model checking of ToFunction.tla (call data = imperative data, isolation from later updates, fresh snapshot for every function made) + scenarios replayed: ocp.to_function vs a freshly written OCP driven imperatively",
+             text="TLC enumerates argument lists (parameters p, q; guesses of sampled states/controls), values current when the function is made, later imperative updates and call values, and supplies the data the call must work on; the real function's results are compared (1e-6) with set_value/set_initial/solve/sample on a fresh OCP with exactly that data, for MS/SS/DC and iteration limits 0 and 50 (with limit 0 the result is the starting point, i.e. depends on the guesses); functions made twice with the same name and expression objects around an imperative update, scaled states/controls, and per-clone parameter values of two stages cloned from one template are part of the family",
              ref="DESIGN.md section 4 C19"),
  'C18': dict(tech="Save/Load as Lifecycle actions; TLC-generated histories replayed into rockit",
              text="at every save point of every generated history the object is saved and loaded; the loaded OCP (symbols found through the public accessors) must transcribe to the NLP of a fresh OCP with the specification's declaration, and the original must continue along the history",
@@ -72,9 +72,9 @@ CLAIMS = {
 }
 NOTES = {
  'C02': "degrees with irrational nodes (radau d>=3, legendre d>=2) are not predicted numerically yet",
- 'C03': "asymptotic rates for general smooth ODEs, schemes with irrational nodes and 'within the requested tolerance' as such are not decided; CVODES quadratures are only required to be within 5e-2 (no error control by default)",
+ 'C03': "DirectCollocation is judged on the polynomial families only (exact with 4 points, order 3/4 with 2 points); asymptotic rates for general smooth ODEs, schemes with irrational nodes and 'within the requested tolerance' as such are not decided; CVODES quadratures are only required to be within 5e-2 (no error control by default)",
  'C17': "SplineMethod with grid='inf' constraints, vector-valued chains and mixed chain lengths in one problem are not covered; equality of optima is a solver-level relation on three problems",
- 'C19': "scaled states/controls inside to_function are not exercised",
+ 'C19': "scaled states/controls and two cloned stages are exercised on thin slices (one model each); matrix-valued arguments are not",
  'C08': "collocation degrees with irrational nodes and the convergence clause are not covered; DC probes are generic (not feasible), so the final sample of the last step is excluded there",
  'C15': "DirectCollocation degree 4 (irrational nodes) is not predicted numerically; tightness as M grows is not decided",
  'C16': "second derivatives only of pure time expressions (der of an expression that mentions controls is documented to raise)",
